@@ -58,6 +58,12 @@ func genRoundTripFile(rng *lib.Rand, idx uint64, noSources bool, longStrings ...
 		if idx%(389*8) == 389*4 {
 			o.PhasedMin, o.PhasedSpan, o.PhasedSlots = 16400, 3000, 1 // one slice of more than 2^14 messages
 		}
+		if idx == 389*4 {
+			// once: an activity with more than 2^16 event messages (a light message: the harness
+			// holds several copies of the content), fields appearing late and in the last messages
+			ft = 4
+			o.FileType, o.PhasedGlobal, o.PhasedMin, o.PhasedSpan = 4, 21, 66000, 5000
+		}
 	}
 	return lib.GenFile(rng, o), ft, arch
 }
